@@ -3,10 +3,14 @@ use serde_json::{Value, json};
 use std::path::Path;
 
 pub mod run;
+pub mod ts;
 
 pub fn dispatch(case: &Value, dir: &Path) -> Value {
     match case.get("op").and_then(|x| x.as_str()) {
         Some("run") => run::op_run(case, dir),
+        Some("ts") => ts::op_ts(case, dir),
+        Some("tsfmt") => ts::op_tsfmt(case, dir),
+        Some("tzdata") => ts::op_tzdata(case, dir),
         Some(op) => json!({"r": "BADCASE", "msg": format!("unknown op {op}")}),
         None => json!({"r": "BADCASE", "msg": "no op"}),
     }
